@@ -345,6 +345,30 @@ def main(argv):
         edge = [b"q" * 8191, b"", b"q" * 8192, b"x\n", b"q" * 8191 + b"\n", b"q" * 8192 + b"\n", b"q" * 8193, b"q" * 4095 + b"\n" + b"r" * 4096, b"last"]
         st, so, se = run_limited([tool, idc], stdin=b"".join(pyb64.b64encode(d) + b"\n" for d in edge), timeout=60)
         check_stream("buffer-edge", edge, st, so, se, "documents of 8191/8192/8193 bytes with and without final newline | b64filter child_id.py")
+        # runs of tiny documents: thousands of queue entries while everything sent to the child still fits
+        # in the feeder's 8 KiB buffer (nothing is flushed before the end of the input)
+        for n, tiny in ((1000, b""), (1024, b""), (1025, b"x"), (2048, b""), (3000, b"y")):
+            if stream_hangs[0] >= 2:
+                break
+            docs = [tiny] * n
+            st, so, se = run_limited([tool, idc], stdin=b"".join(pyb64.b64encode(d) + b"\n" for d in docs), timeout=30)
+            check_stream("tiny-documents", docs, st, so, se, "%d documents %r | b64filter child_id.py" % (n, tiny))
+        # a line longer than the reader's 1 MiB buffer (stdin line > 1 MiB, document line and child answer > 1 MiB)
+        # right after a short document; stdin as a pipe and as a regular file
+        huge = [b"A\n", b"B" * 1500000 + b"\n", b"tail", b"C" * 1200000, b"z\n"]
+        hin = b"".join(pyb64.b64encode(d) + b"\n" for d in huge)
+        if stream_hangs[0] < 2:
+            st, so, se = run_limited([tool, idc], stdin=hin, timeout=120, mem_mb=4096)
+            check_stream("huge-line:pipe", huge, st, so, se, "documents A / 1.5 MB line / tail / 1.2 MB unterminated / z through a pipe | b64filter child_id.py")
+            hf = os.path.join(scratch, "huge.in")
+            open(hf, "wb").write(hin)
+            with open(hf, "rb") as fh:
+                try:
+                    pr = subprocess.run([tool, "cat"], stdin=fh, stdout=subprocess.PIPE, stderr=subprocess.PIPE, timeout=120)
+                    st, so, se = pr.returncode, pr.stdout, pr.stderr
+                except subprocess.TimeoutExpired as e:
+                    st, so, se = "timeout", e.stdout or b"", e.stderr or b""
+            check_stream("huge-line:file", huge, st, so, se, "the same with stdin redirected from a regular file | b64filter cat")
         # one very large document (bigger than every stream buffer and pipe) between small ones
         big = b"".join(b"row %d of the big document %s\n" % (i, b"z" * (i % 97)) for i in range(6000))
         docs = mkdocs(40, 1) + [big, b"", big[:-1]] + mkdocs(40, 2)
